@@ -36,13 +36,13 @@ class ArbiterWorld(World):
         out = {}
         key = "arbiter(n,owner,requests,busy)"
         if key in states:
-            for n in range(1, 6):
+            for n in range(1, 9):
                 reached = sum(1 for s in states[key] if s.startswith(f"({n},"))
                 # busy implies the owner requests: feasible = n * (2^n  + 2^(n-1))
                 out[f"N={n}"] = {"reached": reached, "feasible": n * (2 ** n + 2 ** (n - 1))}
         key2 = "next_owner_domain(n,owner,requests)"
         if key2 in states:
-            for n in range(1, 6):
+            for n in range(1, 9):
                 reached = sum(1 for s in states[key2] if s.startswith(f"({n},"))
                 out[f"next-owner N={n}"] = {"reached": reached, "feasible": n * 2 ** n}
         return out
@@ -53,7 +53,7 @@ class ArbiterWorld(World):
         g = rng.choice([x for x in (8, 16, 32, 64) if x <= dw])
         aw = rng.range(3, 8)
         feats = rng.subset(FEATS)
-        n = rng.range(1, 5)
+        n = rng.range(1, 5) if not rng.chance(0.12) else rng.range(6, 8)
         intrs = []
         for i in range(n):
             ig = rng.choice([x for x in (8, 16, 32, 64) if g <= x <= dw])
